@@ -5,6 +5,7 @@ import (
 	"context"
 	"io"
 	"net"
+	"os"
 	"time"
 
 	"github.com/database64128/shadowsocks-go/conn"
@@ -40,10 +41,45 @@ func (c *Conn) SetScript(wire []byte, sizes []int) {
 	}
 }
 
+// SetScriptT is SetScript plus read deadlines: when the reader has consumed touts[i] bytes of wire
+// (offsets ascending, repetitions allowed) the next Read returns (0, os.ErrDeadlineExceeded) once.
+func (c *Conn) SetScriptT(wire []byte, sizes []int, touts []int) {
+	c.SetScript(wire, sizes)
+	if len(touts) == 0 {
+		return
+	}
+	var segs [][]byte
+	pos, ti := 0, 0
+	mark := func() {
+		for ti < len(touts) && touts[ti] <= pos {
+			segs = append(segs, nil) // nil = deadline marker
+			ti++
+		}
+	}
+	mark()
+	for _, sg := range c.segs {
+		for len(sg) > 0 {
+			n := len(sg)
+			if ti < len(touts) && touts[ti]-pos < n {
+				n = touts[ti] - pos
+			}
+			segs = append(segs, sg[:n])
+			sg = sg[n:]
+			pos += n
+			mark()
+		}
+	}
+	c.segs = segs
+}
+
 func (c *Conn) Read(b []byte) (int, error) {
 	c.Reads++
 	if len(c.segs) == 0 {
 		return 0, io.EOF
+	}
+	if c.segs[0] == nil {
+		c.segs = c.segs[1:]
+		return 0, os.ErrDeadlineExceeded
 	}
 	n := copy(b, c.segs[0])
 	if n == len(c.segs[0]) {
